@@ -53,7 +53,7 @@ CLAIM_TEXT = {
     'C15': ('Display for TomlError never panics and prints line + 1 / column + 1 of the span start with the caret under that '
             'column, for every error value (Verus V10, unbounded, UNDER the contract of translate_position); '
             'translate_position == (line, char column) spec with clamping is itself only checked for every valid UTF-8 input up '
-            'to the stated length and every index (Kani K8, bounded: the proof level covers the rendering, not the position). '
+            'to the stated length (quick: 1-2 bytes, thorough: 1-4 bytes) and every index (Kani K8, bounded: the proof level covers the rendering, not the position). '
             'Deserialization errors: every map_err closure keeps an existing span, else attaches the value / key span, and '
             'adds the key to the path (Verus V13, unbounded).', '4 V10, V13, K8'),
 }
